@@ -67,10 +67,22 @@ def round_rel(x, mode, k):
                  r05)))))))
 
 
-def round_fn(x, mode):
-    """functional form of round_rel (an Int term)."""
-    k = z3.FreshInt("rk")
-    raise NotImplementedError
+# the rounding *function*: round_rel is total and functional for valid modes
+# (lemmas `round_rel/total` and `round_rel/functional`, proved in lemmas.py),
+# so `rnd` is well defined; its defining fact is instantiated per use.
+rnd = z3.Function("rnd", z3.RealSort(), z3.IntSort(), z3.IntSort())
+
+
+def round_builtin_mode(tag):
+    """mode used by the built-in round(x, n): decimalfp.Decimal uses the
+    default rounding mode, fractions.Fraction rounds half to even (A2)"""
+    from .sym import T_DEC
+    return z3.If(tag == T_DEC, DFLT_MODE, z3.IntVal(MODE_ID["ROUND_HALF_EVEN"]))
+
+
+def rnd_fact(x, mode):
+    return z3.Implies(z3.And(mode >= 0, mode < 8),
+                      round_rel(x, mode, rnd(x, mode)))
 
 
 # powers of ten -----------------------------------------------------------
@@ -123,11 +135,18 @@ def qpow(x, n, path=None):
     return t
 
 
+numer = z3.Function("numer", z3.RealSort(), z3.IntSort())
+denom = z3.Function("denom", z3.RealSort(), z3.IntSort())
+
+
+def num_den_fact(x):
+    return z3.And(denom(x) > 0, z3.ToReal(numer(x)) == x * z3.ToReal(denom(x)))
+
+
 def num_den(x, path) -> Tuple[Any, Any]:
-    """numerator / denominator of a rational: n/d == x, d > 0 (lowest terms
-    is not needed by any caller's contract)."""
-    n = path.fresh("num", z3.IntSort())
-    d = path.fresh("den", z3.IntSort())
+    """numerator / denominator of a rational: functions of the value with
+    n/d == x, d > 0 (lowest terms is not needed by any caller's contract)."""
+    n, d = numer(x), denom(x)
     path.assume(d > 0)
     path.assume(z3.ToReal(n) == x * z3.ToReal(d))
     return n, d
